@@ -131,7 +131,7 @@ Definition exits_early (c : consumer) (pre : list value) : bool :=
   | CPosition p => fold_stop _ (f_position p) (0, inl VNull) l
   | CFold init g => fold_stop _ (f_fold g) (inl init) l
   | CFor q => fold_stop _ (f_for q) (inl 0) l
-  | CNexts _ | CUnpack _ => false
+  | CNexts _ | CUnpack _ | CScript _ => false
   end.
 
 Lemma good_inl : forall {A} (a : A), accgood (inl a : acc A).
